@@ -1,6 +1,7 @@
 import ClapProofs.C01
 import ClapProofs.C03
 import ClapProofs.C04
+import ClapProofs.C06
 import ClapProofs.C07
 import ClapProofs.C13
 import ClapProofs.C14
